@@ -400,8 +400,17 @@ def r_no_early_ok(rule, root=None):
         early = []
         for r in A.find(fn["body"], "Return"):
             v = A.strip(r.get("e") or {})
-            if v.get("k") == "Call" and A.path_segs(v["func"]) == ["Ok"] and r["ln"] < ms[0]["ln"] and not any(n is r for n in A.walk(ms[0])):
+            # any early return that can succeed: `Ok(..)` itself, or a match / call / `?`-free expression that is not a
+            # literal `Err(..)` (e.g. `return match self.eval.eval(..) { Ok(out) => Ok(..), .. }`)
+            is_err = v.get("k") == "Call" and A.path_segs(v["func"]) == ["Err"]
+            if not is_err and r["ln"] < ms[0]["ln"] and not any(n is r for n in A.walk(ms[0])):
                 early.append(r)
+        # the inner evaluator sees the rows the binding loop filled, nothing else
+        for c in A.find(fn["body"], "MethodCall"):
+            if c["method"] == "eval" and str(A.ftxt(c["recv"])) == "self.eval" and len(c["args"]) >= 2:
+                a1 = str(A.ftxt(A.strip(c["args"][1])))
+                if "scratch" not in a1:
+                    rule.bad("%s|eval-args" % label, "the %s shape evaluator hands `%s` to the inner evaluator; only the scratch rows filled by the binding loop (row = the tape's own index of each variable) bind variables by identity" % (label, a1[:60]), A.where(fn, c))
         if early:
             rule.bad("%s|early-ok" % label, "the %s shape evaluator returns `%s` before its variables are bound (under `%s`): for that input a missing variable or a mis-sized variable array is silently accepted, unlike every other evaluator" % (label, A.unparse(early[0])[:40], " && ".join(A.enclosing_conds(fn["body"], early[0]) or [])), A.where(fn, early[0]))
         else:
